@@ -202,6 +202,36 @@ def leg_v(ctx, module, cfg, tracefile, strip=("conc", "marker", "stray", "panic"
 _cache = {}
 
 
+_EXPL = re.compile(r'<<\s*"EXPLAINED",\s*(\d+)\s*>>')
+
+
+def leg_s(ctx, module, cfg, tracefile, final_ev="final", label="S", timeout=1800):
+    """Validate free-running runs whose internal order TLC has to infer (two-lane trace spec: see
+    BreakerStress.tla). Returns the 1-based line numbers of the `final` lines of runs for which NO
+    order of the silent steps explains the log."""
+    t = time.time()
+    rc, out = tlc(ctx, module, cfg, workers=1, timeout=timeout, env={"VERIF_TRACE": tracefile}, tag=label)
+    if "Model checking completed. No error has been found." not in out:
+        raise Machinery("Leg %s %s/%s: TLC did not complete (rc=%d):\n%s" % (label, module, cfg, rc, tail_err(out)))
+    explained = {int(m.group(1)) for m in _EXPL.finditer(out)}
+    finals = []
+    n = 0
+    with open(tracefile) as f:
+        for i, line in enumerate(f, 1):
+            n += 1
+            if '"ev":"%s"' % final_ev in line:
+                finals.append(i)
+    if not finals:
+        raise Machinery("Leg %s: no run in %s" % (label, tracefile))
+    bad = [i for i in finals if i not in explained]
+    gen, dist = stats(out)
+    ctx.cov["traces_validated_against_impl"] += n
+    ctx.cov["legs"][label + ":" + os.path.basename(tracefile)] = {"lines": n, "runs": len(finals), "unexplained_runs": len(bad),
+                                                                "search_states": dist, "wall_s": round(time.time() - t, 1)}
+    ctx.say("Leg %s %s: %d runs (%d lines), %d unexplained; TLC searched %d states" % (label, os.path.basename(tracefile), len(finals), n, len(bad), dist))
+    return bad
+
+
 def read_line(path, lineno):
     """1-based line of an ndjson file, parsed (files are cached in memory)."""
     if path not in _cache:
